@@ -477,3 +477,15 @@ Proof.
       - rewrite A4 in B4. injection B4 as B4. exact B4. }
     split; [rewrite A1, B1, El; reflexivity|]. auto.
 Qed.
+
+(* a file without entries (outside the quantifier of C08/C14, decided by C13): both paths of
+   every http decoder kind deliver nothing and fail with "no ammo", sink closed, in 3 steps *)
+Lemma deliver_empty_file k preload lim pas ch fuel :
+  3 <= fuel ->
+  let x := deliver k preload (cfgc lim pas ch) [] None fuel in
+  delivered x = [] /\ closed x = true
+  /\ (out x = Failed ENoAmmo \/ out x = Failed (ELoad ENoAmmo)).
+Proof.
+  intros Hf. destruct fuel as [|[|[|f]]]; try lia.
+  destruct k, preload; destruct lim as [|l]; destruct pas as [|[|p]]; cbn; auto.
+Qed.
